@@ -140,9 +140,10 @@ static void cpp_mode(int family, int alg, int tier)
         }
     }
     /* set_nonce with every length 0..20 (left pad with zeros / truncate), NULL with 0; set_counter at byte boundaries */
-    for (int len = 0; len <= 20; len++) {
-        void *h = cpps_new(family, alg); uint8_t src[24], want[16], exp[64], out[64];
-        cpps_set_key(h, K, klen); hx_fill(src, 24, HX_P_DENSE, 9);
+    static const int nlens[] = {0, 1, 2, 3, 4, 5, 6, 7, 8, 9, 10, 11, 12, 13, 14, 15, 16, 17, 18, 19, 20, 31, 32, 33, 255, 256, 257, 271, 272, 512, 1024, 4099, 65536, 65537};
+    for (unsigned li = 0; li < sizeof nlens / sizeof nlens[0]; li++) { int len = nlens[li];
+        void *h = cpps_new(family, alg); static uint8_t src[65600]; uint8_t want[16], exp[64], out[64];
+        cpps_set_key(h, K, klen); hx_fill(src, sizeof src, HX_P_DENSE, 9);
         { uint8_t junk[16]; memset(junk, 0xEE, 16); cpps_set_nonce(h, junk, 16); }
         cpps_set_nonce(h, len ? src : 0, len);
         memset(want, 0, 16); if (len >= 16) memcpy(want, src, 16); else memcpy(want + 16 - len, src, len);
